@@ -208,7 +208,8 @@ fn run_generate(
     }
     reporter.complete_step(Some(&format!("Found {} commands", commands.len())));
 
-    if commands.is_empty() {
+    // A project that only emits events still gets its listeners
+    if commands.is_empty() && analyzer.get_discovered_events().is_empty() {
         println!("⚠️  No Tauri commands found. Make sure your project contains functions with #[tauri::command] attributes.");
         return Ok(());
     }
